@@ -307,7 +307,7 @@ impl Property for C03 {
         }
     }
     fn required_features(&self, _tier: Tier) -> Vec<String> {
-        ["outcome/resolved", "outcome/not-resolved", "outcome/too-broad", "store/narrow-by-address", "store/narrow-by-asset", "store/fetch-dangling", "store/fetch-window-full", "shape/from+ref", "shape/collateral", "shape/many", "shape/multi-ref", "tight/needs-all-candidates", "tight/window-nearly-full", "tight/single-unique-cover"]
+        ["outcome/resolved", "outcome/not-resolved", "outcome/too-broad", "store/narrow-by-address", "store/narrow-by-asset", "store/fetch-dangling", "store/fetch-window-full", "shape/from+ref", "shape/collateral", "shape/many", "shape/multi-ref", "tight/needs-all-candidates", "tight/window-nearly-full", "tight/single-unique-cover", "tight/no-address-token-holders"]
             .iter()
             .map(|s| s.to_string())
             .collect()
@@ -401,15 +401,23 @@ impl Property for C03 {
                 let j = rng.usize(i + 1);
                 store.swap(i, j);
             }
-            let cands: Vec<&Utxo> = store.iter().filter(|u| u.address == addr(a)).collect();
-            let many = rng.chance(3, 4);
+            // one time in five the query has no address: the candidates are the holders of the token, wherever they sit
+            let no_address = with_token && rng.chance(1, 5);
+            if no_address {
+                ctx.count("tight/no-address-token-holders");
+            }
+            let cands: Vec<&Utxo> = store.iter().filter(|u| if no_address { amount(u, 1) > 0 } else { u.address == addr(a) }).collect();
+            if cands.len() > WINDOW {
+                return;
+            }
+            let many = rng.chance(3, 4) || no_address;
             let q = if many {
                 let slack = if rng.chance(2, 3) { 0 } else { rng.range(0, 3) as i128 };
                 let tot0: i128 = cands.iter().map(|u| amount(u, 0)).sum();
                 let tot1: i128 = cands.iter().map(|u| amount(u, 1)).sum();
                 ctx.count("tight/needs-all-candidates");
                 let t = if with_token { Some((tot1 - if rng.bool() { 0 } else { slack }).max(1)) } else { None };
-                Query { address: Some(a), refs: vec![], min: Some([Some((tot0 - slack).max(0)), t, None]), many: true, collateral: false }
+                Query { address: if no_address { None } else { Some(a) }, refs: vec![], min: Some([Some((tot0 - slack).max(0)), t, None]), many: true, collateral: false }
             } else {
                 // exactly one candidate covers: make it dominate the others in both classes
                 let pick = rng.usize(cands.len());
